@@ -4,6 +4,7 @@ package main
 
 import (
 	"fmt"
+	"sort"
 	"strings"
 )
 
@@ -203,6 +204,9 @@ func mkBin(op Op, x, y *Term) *Term {
 	if x.isConst() && y.isConst() {
 		return mkConst(evalBin(op, x.val, y.val, w), w)
 	}
+	if op == OpAdd {
+		return mkSum(x, y)
+	}
 	switch op {
 	case OpAdd, OpOr, OpXor:
 		if x.isConst() && !y.isConst() {
@@ -216,6 +220,20 @@ func mkBin(op Op, x, y *Term) *Term {
 		}
 		if op == OpOr && x == y {
 			return x
+		}
+		if op == OpOr {
+			for _, pr := range [2][2]*Term{{x, y}, {y, x}} {
+				a, b := pr[0], pr[1]
+				if a.op == OpConcat && a.args[1].isConst() && a.args[1].val == 0 {
+					k := a.args[1].w
+					if b.op == OpZext && b.args[0].w <= k {
+						return mkConcat(a.args[0], mkZext(b.args[0], k))
+					}
+					if b.w == k+a.args[0].w && termUB(b) <= mask(k) {
+						return mkConcat(a.args[0], mkExtract(b, k-1, 0))
+					}
+				}
+			}
 		}
 		if op == OpXor && x == y {
 			return mkConst(0, w)
@@ -246,6 +264,14 @@ func mkBin(op Op, x, y *Term) *Term {
 			}
 			if y.val == mask(w) {
 				return x
+			}
+			// and(x, 2^k-1) = zext(extract(x, k-1, 0))
+			if y.val&(y.val+1) == 0 && y.val != 0 {
+				k := 0
+				for (uint64(1)<<uint(k))-1 != y.val {
+					k++
+				}
+				return mkZext(mkExtract(x, k-1, 0), w)
 			}
 			// and(zext(z), c) where c covers all of z's bits
 			if x.op == OpZext && y.val&mask(x.args[0].w) == mask(x.args[0].w) {
@@ -284,6 +310,10 @@ func mkBin(op Op, x, y *Term) *Term {
 				return mkConst(0, w)
 			}
 			k := int(y.val)
+			if op == OpShl && x.op == OpAdd {
+				// shl distributes over addition modulo 2^w
+				return mkSum(mkBin(OpShl, x.args[0], y), mkBin(OpShl, x.args[1], y))
+			}
 			if op == OpShl {
 				// shl(x,k) = concat(extract(w-k-1,0,x), 0_k)
 				return mkConcat(mkExtract(x, w-k-1, 0), mkConst(0, k))
@@ -324,6 +354,49 @@ func mkBin(op Op, x, y *Term) *Term {
 	return mk(op, w, []*Term{x, y}, 0, 0, 0, "")
 }
 
+// mkSum builds x+y with addition normalised modulo associativity and commutativity:
+// a left-nested chain of the non-constant addends sorted by term id, constant last.
+func addends(t *Term, out *[]*Term, c *uint64) {
+	for t.op == OpAdd {
+		r := t.args[1]
+		if r.isConst() {
+			*c += r.val
+		} else {
+			*out = append(*out, r)
+		}
+		t = t.args[0]
+	}
+	if t.isConst() {
+		*c += t.val
+	} else {
+		*out = append(*out, t)
+	}
+}
+
+func mkSum(x, y *Term) *Term {
+	if x.w != y.w {
+		panic("mkSum: width mismatch")
+	}
+	w := x.w
+	var ts []*Term
+	var c uint64
+	addends(x, &ts, &c)
+	addends(y, &ts, &c)
+	c &= mask(w)
+	sort.Slice(ts, func(i, j int) bool { return ts[i].id < ts[j].id })
+	if len(ts) == 0 {
+		return mkConst(c, w)
+	}
+	acc := ts[0]
+	for _, t := range ts[1:] {
+		acc = mk(OpAdd, w, []*Term{acc, t}, 0, 0, 0, "")
+	}
+	if c != 0 {
+		acc = mk(OpAdd, w, []*Term{acc, mkConst(c, w)}, 0, 0, 0, "")
+	}
+	return acc
+}
+
 func mkNot(x *Term) *Term {
 	if x.isConst() {
 		return mkConst(^x.val, x.w)
@@ -348,6 +421,9 @@ func mkConcat(hi, lo *Term) *Term {
 	}
 	if hi.isConst() && hi.val == 0 && w <= 64 {
 		return mkZext(lo, w)
+	}
+	if hi.op == OpNot && lo.op == OpNot {
+		return mkNot(mkConcat(hi.args[0], lo.args[0]))
 	}
 	// concat(extract(x,h,m+1), extract(x,m,l)) = extract(x,h,l)
 	if hi.op == OpExtract && lo.op == OpExtract && hi.args[0] == lo.args[0] && hi.b == lo.a+1 {
@@ -396,10 +472,6 @@ func mkExtract(x *Term, hi, lo int) *Term {
 		return mkBin(x.op, mkExtract(x.args[0], hi, lo), mkExtract(x.args[1], hi, lo))
 	case OpNot:
 		return mkNot(mkExtract(x.args[0], hi, lo))
-	case OpAdd, OpSub, OpMul:
-		if lo == 0 {
-			return mkBin(x.op, mkExtract(x.args[0], hi, 0), mkExtract(x.args[1], hi, 0))
-		}
 	case OpIte:
 		if x.args[1].isConst() || x.args[2].isConst() {
 			return mkIte(x.args[0], mkExtract(x.args[1], hi, lo), mkExtract(x.args[2], hi, lo))
